@@ -185,6 +185,7 @@ def real_commands(rng, n_cmds, n_threads, with_findings=False):
         known.extend(probe_findings(Command, Till, mo_threads))
         viol.extend(probe_idle_reuse(Command, Till, mo_threads))
         viol.extend(probe_dead_shell(Command, Till, mo_threads))
+        viol.extend(probe_retired_shell(Command, Till, mo_threads))
     Command._worker = orig_worker
     return lines, viol, known, samples
 
@@ -244,6 +245,77 @@ def probe_dead_shell(Command, Till, mo_threads):
         except Exception as e:   # noqa
             out.append("C18: the Command issued after a shell had died could not run: %s" % str(e).strip().splitlines()[0][:160])
     finally:
+        try:
+            os.rmdir(cwd)
+        except OSError:
+            pass
+    return out
+
+
+def probe_retired_shell(Command, Till, mo_threads):
+    """history of shell reuse: a shell has been idle for longer than STALE_MAX_AGE (shortened from here), the pool's review
+    retires it (writes "exit" to it), and at that very moment the next Command of that directory is made.  It must get its own
+    lines and status: a shell that is being retired is no longer in the pool when it is told to go.  The retiring shell's end is
+    made to be noticed half a second late (its wait() is slowed from here), as on a busy machine."""
+    import tempfile
+    import threading
+    import time
+    from mo_threads import commands
+    out = []
+    cwd = tempfile.mkdtemp(prefix="c18_retired_shell_")
+    old_age = commands.STALE_MAX_AGE
+
+    def run(name, params):
+        c = Command(name, params, cwd=cwd, timeout=10)
+        got = []
+        deadline = Till(seconds=12)
+        while not deadline:
+            v = c.stdout.pop(till=deadline)
+            if v == mo_threads.PLEASE_STOP:
+                break
+            if v is not None:
+                got.append(v)
+        try:
+            c.join(till=Till(seconds=5))
+        except Exception:   # noqa
+            pass
+        return c, got
+
+    try:
+        commands.STALE_MAX_AGE = 0.5
+        a, got = run("retire-a", ["echo", "from A"])
+        if got != ["from A"] or a.returncode != 0:
+            return out
+        shell, manager = a.process, a.manager
+        time.sleep(1.0)                       # idle for longer than STALE_MAX_AGE
+        exit_sent = threading.Event()
+        orig_add, orig_wait = shell.stdin.add, shell.service.wait
+
+        def add(value, *args, **kwargs):
+            r = orig_add(value, *args, **kwargs)
+            if value == "exit":
+                exit_sent.set()
+            return r
+
+        def wait(timeout=None):
+            if exit_sent.is_set():
+                time.sleep(0.5)
+            return orig_wait(timeout=timeout)
+        shell.stdin.add, shell.service.wait = add, wait
+        manager.wakeup.go()                   # the periodic review, now
+        if not exit_sent.wait(15):
+            return out                        # the review did not retire it in time: nothing to observe
+        try:
+            b, got = run("retire-b", ["bash", "-c", "echo from B; echo more from B; exit 3"])
+            if got != ["from B", "more from B"] or b.returncode != 3:
+                out.append("C18: the Command made while the pool was retiring an idle shell yielded stdout %r and returncode %r instead "
+                           "of ['from B', 'more from B'] and 3%s" % (got, b.returncode, " - it was handed the retiring shell" if b.process is shell else ""))
+        except Exception as e:   # noqa
+            out.append("C18: the Command made while the pool was retiring an idle shell could not run: %s" % str(e).strip().splitlines()[0][:160])
+    except Exception:   # noqa
+        pass                                   # the probe relies on attributes of today's code; if they are gone it says nothing
+    finally:
+        commands.STALE_MAX_AGE = old_age
         try:
             os.rmdir(cwd)
         except OSError:
